@@ -87,6 +87,48 @@ impl Drop for LockScope {
     }
 }
 
+/// Stand-in for `std::sync::Mutex` where the lock is held while other code runs (the shared state of
+/// the capability API's request and stream futures, whose resolve callbacks wake tasks under the
+/// lock, and the bridge's resolve registry).
+///
+/// Without a controller on the calling thread it *is* the std mutex. With one, every `lock` is a
+/// schedule point (`mutex.lock`) first, and an acquisition that would have to wait hands control to
+/// the controller (`mutex.contended`) and tries again when the thread is resumed. `try_lock` is the
+/// std operation unchanged.
+#[derive(Debug, Default)]
+pub struct Mutex<T>(std::sync::Mutex<T>);
+
+impl<T> Mutex<T> {
+    pub fn new(value: T) -> Self {
+        Self(std::sync::Mutex::new(value))
+    }
+
+    /// # Errors
+    /// As `std::sync::Mutex::lock`.
+    pub fn lock(&self) -> std::sync::LockResult<std::sync::MutexGuard<'_, T>> {
+        let controller = current();
+        if let Some(c) = &controller {
+            c.point("mutex.lock");
+        }
+        loop {
+            match self.0.try_lock() {
+                Ok(guard) => return Ok(guard),
+                Err(std::sync::TryLockError::Poisoned(e)) => return Err(e),
+                Err(std::sync::TryLockError::WouldBlock) => match &controller {
+                    Some(c) => c.point("mutex.contended"),
+                    None => return self.0.lock(),
+                },
+            }
+        }
+    }
+
+    /// # Errors
+    /// As `std::sync::Mutex::try_lock`.
+    pub fn try_lock(&self) -> std::sync::TryLockResult<std::sync::MutexGuard<'_, T>> {
+        self.0.try_lock()
+    }
+}
+
 /// Stand-in for `std::sync::RwLock` where a lock can be held across a schedule point (the model
 /// lock of `Core`, held while the app's `update` and `view` run).
 ///
